@@ -146,6 +146,7 @@ Inductive case :=
         (next : Z) (before after : list (Z * Z * Z)) (res : Z)
 | CFees (mult cf sf gas : Z) (got : option (Z * Z * Z))
 | CUpsert (mult : Z) (accepted : bool)
+| CWeights (w : Z * Z * Z * Z * Z) (accepted : bool)
 | CQueue (cfg : list (Z * Z) * Z * Z) (nv : Z) (steps : list (op * (list qobs * list (list Z))))
 | CSys (ch nv : Z) (steps : list (sop * (list sobs * list (list Z))))
 | CCap (blocks : list (Z * op)) (v : Z) (qlen : Z) (got : list (Z * Z)).
@@ -167,6 +168,7 @@ Definition check (c : case) : bool :=
   | CFees mult cf sf gas got =>
       option_eqb zzz_eqb (fee_proj (fees_for mult cf sf gas)) got
   | CUpsert mult accepted => Bool.eqb (valid_multiplier mult) accepted
+  | CWeights w accepted => Bool.eqb (valid_weights (mk_weights w)) accepted
   | CQueue cfg nv steps => check_steps (mk_cfg cfg) nv init steps
   | CSys ch nv steps => check_sys ch nv sinit steps
   | CCap blocks v qlen got =>
